@@ -183,7 +183,7 @@ var nestings = map[string][2]string{
 	"after-line-comment":  {"text // a comment\n", ""},
 	"after-block-comment": {"/* a comment */", "/* another */"},
 	"between-comments":    {"x /* c */ // d\n  ", "  // e\n"},
-	"comment-in-param":    {"{call .c10u}// c\n{param p}", "{/param}/* c */{/call}"},
+	"comment-in-param":    {"// c\n{call .c10u}{param p}/* c */", "// d\n{/param}{/call}/* e */"},
 	"comment-before-let":  {"/* c */{let $c10v}// d\n", "{/let}{$c10v}"},
 	"indented-lines":      {"\n\n      ", "\n      \n"},
 }
@@ -306,7 +306,7 @@ func c10Exec(cs *c10Case, plan *simrt.MapPlan, u *wk.Unit) *wk.Failure {
 	case "maporder":
 		v, _ := observeMsgCase(base, plan)
 		if v.Trouble != "" {
-			return &wk.Failure{Class: "machinery", Detail: v.Trouble}
+			return mk("crash or hang under another order", "the compilation finishes under the canonical order and under another legal map iteration order it does not: "+v.Trouble)
 		}
 		if !v.Accept || len(v.Msgs) != 1 {
 			return mk("accept/reject decision", "the bundle is rejected under a different map iteration order: "+v.Err)
@@ -365,6 +365,14 @@ func c10Exec(cs *c10Case, plan *simrt.MapPlan, u *wk.Unit) *wk.Failure {
 			c = nestedBundle(cs.Variant, cs.Msg)
 		}
 		v, _ := observeMsgCase(c, simrt.CanonicalPlan())
+		if cs.Variant != "surrounded" && (!v.Accept || len(v.Msgs) <= idx) {
+			// the message compiles on its own (r0 exists) and the wrapper is fixed text: being rejected,
+			// or not being found among the bundle's messages, is an effect of the surrounding code
+			if !v.Accept {
+				return mk("accepted alone, rejected in context ("+cs.Variant+")", fmt.Sprintf("the message compiles alone and is rejected in context %q: %s", cs.Variant, v.Err))
+			}
+			return mk("message lost in context ("+cs.Variant+")", fmt.Sprintf("in context %q the compiled bundle holds %d messages, the message is not among them", cs.Variant, len(v.Msgs)))
+		}
 		if !v.Accept || len(v.Msgs) <= idx {
 			return &wk.Failure{Class: "invalid-case", Detail: v.Err}
 		}
